@@ -11,6 +11,7 @@ import CssVerif.Driver.CodecOps
 import CssVerif.Driver.NumOps
 import CssVerif.Driver.SelOps
 import CssVerif.Driver.UptoOps
+import CssVerif.Driver.ImportOps
 open CssVerif CssVerif.Proto
 
 def showTok (t : Tok) : String :=
@@ -52,6 +53,9 @@ def step (line : String) : String :=
   | ["split", fx, toks] => UptoOps.opSplit fx toks
   | ["dsplit", fx, toks] => UptoOps.opDsplit fx toks
   | ["stmts", fx, items] => UptoOps.opStmts fx items
+  | ["encsel", o, h, e, p] => ImportOps.opEncSel o h e p
+  | ["fetchout", fx, k] => ImportOps.opFetchOut fx k
+  | ["urlpath", b, r] => ImportOps.opUrlPath b r
   | ["sel", ns, hex] => SelOps.opSel ns hex
   | ["num", fx, om, hex] => NumOps.opNum fx om hex
   | ["numval", hex] => NumOps.opVal hex
